@@ -54,7 +54,11 @@ def make_check(cfg):
     def check(ex):
         vs = monitors.checkpoints(ex, speculative=cfg.get("speculative", False))
         if ex.exc is not None and ex.exc[0] != "LoopCap" and not (ex.exc[0] == "ValueError" and "no metrics got observed" in ex.exc[2]):
-            vs.append((f"exc:{ex.exc[0]}@{ex.exc[1]}", f"{ex.exc[0]} escaped Tuner.run at {ex.exc[1]}: {ex.exc[2]}"))
+            key = f"exc:{ex.exc[0]}@{ex.exc[1]}"
+            cad = [k for k, _ in vs if k.startswith("checkpoint:copy-after-delete")]
+            if ex.exc[0] == "FileNotFoundError" and cad:
+                key += ":" + cad[-1].split(":")[-1]   # same root cause as the copy-after-delete just reported
+            vs.append((key, f"{ex.exc[0]} escaped Tuner.run at {ex.exc[1]}: {ex.exc[2]}"))
         return vs
     return check
 
